@@ -444,6 +444,9 @@ type qgen struct {
 	nCTE   int
 	ctes   []*src // CTEs defined so far in the WITH clause of the query under construction
 	outer  []*src // CTEs of the enclosing queries (visible in nested sub-selects)
+	// forced choices for the next join (matrix cases); zero = draw
+	forceForm, forceKind byte
+	forceUsingK          int
 }
 
 func (x *qgen) alias() string { x.nAlias++; return "a" + strconv.Itoa(x.nAlias) }
@@ -751,6 +754,12 @@ func (x *qgen) join(l, r *src, noMerge bool) *src {
 		form = 'o'
 	}
 	s.jk = []byte{'I', 'I', 'L', 'L', 'R', 'F'}[g.Intn(6)]
+	if x.forceForm != 0 {
+		form = x.forceForm
+	}
+	if x.forceKind != 0 {
+		s.jk = x.forceKind
+	}
 	ll, rl := l.layout, r.layout
 	if form == 'u' {
 		var names []string
@@ -773,6 +782,12 @@ func (x *qgen) join(l, r *src, noMerge bool) *src {
 			k := 1
 			if len(names) > 1 && g.Intn(3) == 0 {
 				k = 2
+			}
+			if x.forceUsingK > 0 {
+				k = x.forceUsingK
+				if k > len(names) {
+					k = len(names)
+				}
 			}
 			s.unames = names[:k]
 		}
@@ -1306,6 +1321,7 @@ func run(seed int64, n int, dir string, _ []string) {
 	}
 	x.tables = nil
 
+	naturalMatrix(g, pr, o, n)
 	lawStreams(g, pr, o, n)
 }
 
